@@ -265,3 +265,65 @@ func vcLemma_bits_SelectedSSCModeAndSelectedPDUSessionType_SSCMode(o uint8, v ui
 	vc.Assert("read", b.GetSSCMode() == o>>4&0x7)
 }
 
+
+// Fields of more than a half octet in the information elements the emulator fills through accessors
+// (TS 24.501 9.11.4.7 integrity protection maximum data rate: octet 2 is the maximum data rate per
+// UE for user-plane integrity protection for uplink, octet 3 the one for downlink; 9.11.3.4 5GS
+// mobile identity, 5G-S-TMSI: octet 5 AMF set ID bits 9..2, octet 6 bits 8..7 AMF set ID bits 1..0
+// and bits 6..1 AMF pointer, octets 7..10 5G-TMSI; 9.11.2.8 S-NSSAI: octet 3 SST, octets 4..6 SD).
+// The Go arrays hold the value part only, so octet 2 of a type-3 IE (octet 3 of a type-4 IE) is
+// index 0; the 5G-S-TMSI array starts at octet 4 (the type-of-identity octet).
+
+// prop: C09
+func vcLemma_octets_IntegrityProtectionMaximumDataRate(o [2]uint8, ul uint8, dl uint8) {
+	a := &IntegrityProtectionMaximumDataRate{Octet: o}
+	a.SetMaximumDataRatePerUEForUserPlaneIntegrityProtectionForUpLink(ul)
+	vc.Assert("ul.set", a.Octet[0] == ul && a.Octet[1] == o[1])
+	a.SetMaximumDataRatePerUEForUserPlaneIntegrityProtectionForDownLink(dl)
+	vc.Assert("dl.set", a.Octet[0] == ul && a.Octet[1] == dl)
+	vc.Assert("ul.get", a.GetMaximumDataRatePerUEForUserPlaneIntegrityProtectionForUpLink() == ul)
+	vc.Assert("dl.get", a.GetMaximumDataRatePerUEForUserPlaneIntegrityProtectionForDownLink() == dl)
+	b := &IntegrityProtectionMaximumDataRate{Octet: o}
+	vc.Assert("ul.read", b.GetMaximumDataRatePerUEForUserPlaneIntegrityProtectionForUpLink() == o[0])
+	vc.Assert("dl.read", b.GetMaximumDataRatePerUEForUserPlaneIntegrityProtectionForDownLink() == o[1])
+}
+
+// prop: C09
+func vcLemma_octets_TMSI5GS(o [7]uint8, set uint16, ptr uint8, tmsi [4]uint8) {
+	a := &TMSI5GS{Octet: o}
+	a.SetAMFSetID(set)
+	vc.Assert("set.set", a.Octet[0] == o[0] && a.Octet[1] == uint8(set>>2) && a.Octet[2] == o[2]&0x3f|uint8(set&3)<<6 &&
+		a.Octet[3] == o[3] && a.Octet[4] == o[4] && a.Octet[5] == o[5] && a.Octet[6] == o[6])
+	a.SetAMFPointer(ptr)
+	vc.Assert("ptr.set", a.Octet[0] == o[0] && a.Octet[1] == uint8(set>>2) && a.Octet[2] == uint8(set&3)<<6|ptr&0x3f &&
+		a.Octet[3] == o[3] && a.Octet[4] == o[4] && a.Octet[5] == o[5] && a.Octet[6] == o[6])
+	a.SetTMSI5G(tmsi)
+	vc.Assert("tmsi.set", a.Octet[0] == o[0] && a.Octet[1] == uint8(set>>2) && a.Octet[2] == uint8(set&3)<<6|ptr&0x3f &&
+		a.Octet[3] == tmsi[0] && a.Octet[4] == tmsi[1] && a.Octet[5] == tmsi[2] && a.Octet[6] == tmsi[3])
+	vc.Assert("set.get", a.GetAMFSetID() == set&0x3ff)
+	vc.Assert("ptr.get", a.GetAMFPointer() == ptr&0x3f)
+	g := a.GetTMSI5G()
+	vc.Assert("tmsi.get", g[0] == tmsi[0] && g[1] == tmsi[1] && g[2] == tmsi[2] && g[3] == tmsi[3])
+	b := &TMSI5GS{Octet: o}
+	vc.Assert("set.read", b.GetAMFSetID() == uint16(o[1])<<2|uint16(o[2]>>6))
+	vc.Assert("ptr.read", b.GetAMFPointer() == o[2]&0x3f)
+	r := b.GetTMSI5G()
+	vc.Assert("tmsi.read", r[0] == o[3] && r[1] == o[4] && r[2] == o[5] && r[3] == o[6])
+}
+
+// prop: C09
+func vcLemma_octets_SNSSAI(o [8]uint8, sst uint8, sd [3]uint8) {
+	a := &SNSSAI{Octet: o}
+	a.SetSST(sst)
+	vc.Assert("sst.set", a.Octet[0] == sst && a.Octet[1] == o[1] && a.Octet[2] == o[2] && a.Octet[3] == o[3])
+	a.SetSD(sd)
+	vc.Assert("sd.set", a.Octet[0] == sst && a.Octet[1] == sd[0] && a.Octet[2] == sd[1] && a.Octet[3] == sd[2])
+	vc.Assert("frame", a.Octet[4] == o[4] && a.Octet[5] == o[5] && a.Octet[6] == o[6] && a.Octet[7] == o[7])
+	vc.Assert("sst.get", a.GetSST() == sst)
+	g := a.GetSD()
+	vc.Assert("sd.get", g[0] == sd[0] && g[1] == sd[1] && g[2] == sd[2])
+	b := &SNSSAI{Octet: o}
+	vc.Assert("sst.read", b.GetSST() == o[0])
+	r := b.GetSD()
+	vc.Assert("sd.read", r[0] == o[1] && r[1] == o[2] && r[2] == o[3])
+}
